@@ -167,12 +167,12 @@ Section C03.
 
   (* failure: the enclosing function returns its zero values and the wrapped error; nothing after
      the wrapped call runs *)
-  Lemma quest_err en x zs vs e encl base tx tr rest : length vs = length zs ->
+  Lemma quest_err_env en x zs vs e encl base tx tr rest : length vs = length zs ->
     stable en x (vs ++ [VErr (Some e)]) tx ->
-    exists en', ex (SSeq (quest_prelude x zs encl base) rest) en tr
-                = (RRet (encl ++ [VErr (Some (EFrame e))]), en', tr ++ tx).
+    ex (SSeq (quest_prelude x zs encl base) rest) en tr
+    = (RRet (encl ++ [VErr (Some (EFrame e))]), rev (combine (autos base (length zs)) vs) ++ en, tr ++ tx).
   Proof.
-    intros Hl Hst. eexists. unfold quest_prelude. rewrite !ex_SSeq, ex_SDefine, rhs_consts.
+    intros Hl Hst. unfold quest_prelude. rewrite !ex_SSeq, ex_SDefine, rhs_consts.
     rewrite bind_all_rev by (rewrite autos_length; reflexivity).
     rewrite ex_SBlock. cbv zeta.
     rewrite (assign_prefix (autos base (length zs)) zs vs x (Some e) tx en tr); auto using autos_length, autos_distinct, autos_fresh_err, nonuser_autos;
@@ -183,7 +183,31 @@ Section C03.
     { intros E tr0. induction encl as [|v t IH]; cbn [map app ev_list].
       - rewrite ev_EVar, lookup_here. reflexivity.
       - rewrite ev_EConst. cbn [one]. now rewrite IH. }
-    rewrite EL. reflexivity.
+    rewrite EL. f_equal. f_equal.
+    set (L := rev (combine (autos base (length zs)) vs) ++ en).
+    rewrite (pop_to_eqlen ((NErr, VErr (Some e)) :: L) ((NErr, VErr (Some (EFrame e))) :: L)) by reflexivity.
+    unfold pop_to. cbn [length]. unfold L. rewrite !app_length, !rev_length, !combine_length, !autos_length.
+    rewrite Hl. replace (S (Nat.min (length zs) (length zs) + length en) - (Nat.min (length zs) (length zs) + length en))%nat with 1%nat by lia.
+    reflexivity.
+  Qed.
+
+  Lemma quest_err en x zs vs e encl base tx tr rest : length vs = length zs ->
+    stable en x (vs ++ [VErr (Some e)]) tx ->
+    exists en', ex (SSeq (quest_prelude x zs encl base) rest) en tr
+                = (RRet (encl ++ [VErr (Some (EFrame e))]), en', tr ++ tx).
+  Proof. intros Hl Hst. eexists. exact (quest_err_env en x zs vs e encl base tx tr rest Hl Hst). Qed.
+
+  (* inside its enclosing function  func() (rs...) { <hoisted block>; rest }  : on failure the function's
+     result is its zero values + the wrapped error, the environment around the call is unchanged, and only
+     the wrapped call has run *)
+  Lemma quest_err_function en rs x zs vs e encl base tx tr rest : length vs = length zs ->
+    stable (rev rs ++ en) x (vs ++ [VErr (Some e)]) tx ->
+    ev (EClosure rs (SSeq (quest_prelude x zs encl base) rest)) en tr
+    = (RVal (encl ++ [VErr (Some (EFrame e))]), en, tr ++ tx).
+  Proof.
+    intros Hl Hst. rewrite ev_EClosure. cbv zeta. rewrite (quest_err_env (rev rs ++ en) x zs vs e encl base tx tr rest Hl Hst).
+    destruct (encl ++ [VErr (Some (EFrame e))]) as [|v0 r] eqn:E; [destruct encl; discriminate|].
+    f_equal. f_equal. rewrite app_assoc. apply pop_to_app.
   Qed.
 
   Lemma stable_pure en e v t : pure_eval en e v t -> user_only e = true -> stable en e [v] t.
